@@ -201,9 +201,9 @@ class ProductErrorNode(ErrorNode):
             field, child = next(iter(self.children.items()))
             if not isinstance(child, ProductErrorNode):
                 break
-            children: t.Dict[t.Union[str, int], ErrorNode] = {f"{field}.{k}": v for (k, v) in child.children.items()}
-            missing = set(f"{field}.{f}" for f in child.missing)
-            extra = set(f"{field}.{f}" for f in child.extra)
+            children: t.Dict[t.Union[str, int], ErrorNode] = {f"{_show(field)}.{_show(k)}": v for (k, v) in child.children.items()}
+            missing = set(f"{_show(field)}.{f if isinstance(f, str) else '/'.join(f)}" for f in child.missing)
+            extra = set(f"{_show(field)}.{_show(f)}" for f in child.extra)
             self = ProductErrorNode(self.expected, children, self.actual, missing, extra)
 
         print(f"{'' if inside_sum else 'Expected '}{self.expected}", file=file)
